@@ -76,13 +76,17 @@ def build():
     vlib.gen_gomod(src)
     outs = {}
     t0 = time.time()
+    # one go invocation for both commands: one action graph, shared packages compiled once
+    bindir = os.path.join(d, "bin")
+    os.makedirs(bindir)
+    p = subprocess.run(["go", "build", "-tags", "verif", "-o", bindir + os.sep, "./cmd/vdrive", "./cmd/vpandora"], cwd=src, env=vlib.go_env(),
+                       stdout=subprocess.PIPE, stderr=subprocess.STDOUT, text=True, timeout=1800)
+    if p.returncode != 0:
+        raise vlib.MachineryError("build of vdrive / vpandora failed\n%s" % p.stdout[-6000:])
     for name in ("vdrive", "vpandora"):
-        out = os.path.join(d, name)
-        p = subprocess.run(["go", "build", "-tags", "verif", "-o", out, "./cmd/" + name], cwd=src, env=vlib.go_env(),
-                           stdout=subprocess.PIPE, stderr=subprocess.STDOUT, text=True, timeout=1200)
-        if p.returncode != 0:
-            raise vlib.MachineryError("build of %s failed\n%s" % (name, p.stdout[-6000:]))
-        outs[name] = out
+        outs[name] = os.path.join(bindir, name)
+        if not os.path.exists(outs[name]):
+            raise vlib.MachineryError("go build did not produce %s" % name)
     vlib.log("vdrive + vpandora built in %.1fs" % (time.time() - t0))
     _bins = (outs["vdrive"], outs["vpandora"])
     return _bins
@@ -90,57 +94,66 @@ def build():
 
 # ------------------------------------------------------------------------------------------ design level
 
+# design-level TLC runs: (module, config, in the quick tier too).  Every JVM start costs 1-2 s on the idle machine and
+# 10-20 s at load average > 100, so the quick tier runs a representative slice (one exhaustive config and one negative
+# control per mechanism), the thorough tier all of them.
+POS = [
+    ("AggregatorMC", "Aggregator_exh.cfg", True), ("AggregatorMC", "Aggregator_exh_block.cfg", True),
+    ("AggregatorMC", "Aggregator_exh_q2.cfg", False), ("AggregatorMC", "Aggregator_exh_block_q2.cfg", False),
+    ("AggregatorMC", "Aggregator_exh_discard.cfg", True),
+    # a sink that fails (write error, partial write, short count, close error): the run FAILS, nothing is lost
+    # silently - phout as fixed (the periodic flush ignores the error, the writer keeps it), encoder aggregators
+    ("AggregatorMC", "Aggregator_exh_fault_block.cfg", True), ("AggregatorMC", "Aggregator_exh_fault_drop.cfg", True),
+    ("AggregatorMC", "Aggregator_exh_fault_drop_q2.cfg", False), ("AggregatorMC", "Aggregator_exh_big.cfg", False),
+    # CLI shutdown: signal before signal.Notify, untrapped signals, second signal, the timers, slow / blocking
+    # sink (back-pressure), instances parked in a blocking Report: _slow_small = 2x1 with two-step writes,
+    # _fast = 2x2 with an instantaneous sink, the others 2x2 / 3x2 with two-step writes
+    ("ShutdownMC", "Shutdown_exh_slow_small.cfg", True), ("ShutdownMC", "Shutdown_exh_drop_slow_small.cfg", True),
+    ("ShutdownMC", "Shutdown_exh_fast.cfg", False), ("ShutdownMC", "Shutdown_exh_drop_fast.cfg", False),
+    ("ShutdownMC", "Shutdown_exh.cfg", False), ("ShutdownMC", "Shutdown_exh_drop.cfg", False),
+    ("ShutdownMC", "Shutdown_exh_q2.cfg", False), ("ShutdownMC", "Shutdown_exh_big.cfg", False),
+    # once told to stop the process ends: thanks to the timers also with a sink that blocks for ever or an
+    # instance parked for ever in phout's Report; jsonlines on a working sink needs no timer
+    ("ShutdownMC", "Shutdown_live.cfg", False), ("ShutdownMC", "Shutdown_live_drop.cfg", False),
+    ("ShutdownMC", "Shutdown_live_drop_fastsink_notimeout.cfg", False),
+    # engine await loop composed with the aggregator (PoolAgg.tla)
+    ("PoolAggMC", "PoolAgg_exh_nofault.cfg", True), ("PoolAggMC", "PoolAgg_exh_small.cfg", True),
+    ("PoolAggMC", "PoolAgg_exh_schedend.cfg", False),
+    ("PoolAggMC", "PoolAgg_exh.cfg", False), ("PoolAggMC", "PoolAgg_exh_block.cfg", False),
+    ("PoolAggMC", "PoolAgg_exh_small2.cfg", False), ("PoolAggMC", "PoolAgg_live_nofault.cfg", False),
+    ("PoolAggMC", "PoolAgg_live.cfg", False), ("PoolAggMC", "PoolAgg_exh_big.cfg", False),
+    # result destinations (Sink.tla): own files as coded; what a repair of the shared file must establish
+    ("SinkMC", "Sink_exh.cfg", True), ("SinkMC", "Sink_repair.cfg", False),
+]
+NEG = [
+    ("AggregatorMC", "Aggregator_neg_nodrain.cfg", True), ("AggregatorMC", "Aggregator_neg_noflush.cfg", True),
+    ("AggregatorMC", "Aggregator_neg_nocount.cfg", True), ("AggregatorMC", "Aggregator_neg_late.cfg", False),
+    # the code as found: phout dropped the error of its final flush / of Close, jsonEncoder.Flush bufio's error
+    ("AggregatorMC", "Aggregator_neg_swallow_final.cfg", True), ("AggregatorMC", "Aggregator_neg_swallow_close.cfg", False),
+    ("AggregatorMC", "Aggregator_neg_swallow_tick.cfg", True),
+    ("ShutdownMC", "Shutdown_neg_nowait.cfg", True), ("ShutdownMC", "Shutdown_neg_reach.cfg", False),
+    # a first signal while the tasks of a FAILED run are awaited ends the process (seed C06-6)
+    ("ShutdownMC", "Shutdown_neg_errsig.cfg", True),
+    # every exempt cause of a forced exit really loses data (the list in ExitComplete is minimal) ...
+    ("ShutdownMC", "Shutdown_neg_early.cfg", True), ("ShutdownMC", "Shutdown_neg_untrapped.cfg", False),
+    ("ShutdownMC", "Shutdown_neg_second.cfg", True), ("ShutdownMC", "Shutdown_neg_timeout.cfg", False),
+    # ... an unforced complete exit of a run whose instance was parked by back-pressure at the signal is reachable
+    ("ShutdownMC", "Shutdown_neg_bpreach.cfg", False),
+    # without the timers a stopped process may never end (instance parked for ever in a blocking Report; a sink
+    # that blocks for ever)
+    ("ShutdownMC", "Shutdown_neg_live_notimeout.cfg", False), ("ShutdownMC", "Shutdown_neg_live_notimeout_slow.cfg", False),
+    ("PoolAggMC", "PoolAgg_neg_early.cfg", True),
+    # out of ammo during the start-up calls runCancel() instead of instanceStartCancel() (seed C06-8)
+    ("PoolAggMC", "PoolAgg_neg_ooa.cfg", True), ("PoolAggMC", "PoolAgg_neg_ooa_start.cfg", False),
+    ("PoolAggMC", "PoolAgg_neg_reach.cfg", False), ("PoolAggMC", "PoolAgg_neg_early_complete.cfg", False),
+    ("PoolAggMC", "PoolAgg_neg_ooa_complete.cfg", False),
+    ("SinkMC", "Sink_neg_samefile.cfg", True), ("SinkMC", "Sink_neg_append_midline.cfg", False), ("SinkMC", "Sink_neg_latetrunc.cfg", False),
+]
+
+
 def design(thorough):
-    pos = [("AggregatorMC", "Aggregator_exh.cfg"), ("AggregatorMC", "Aggregator_exh_block.cfg"),
-           ("AggregatorMC", "Aggregator_exh_q2.cfg"), ("AggregatorMC", "Aggregator_exh_block_q2.cfg"),
-           # CLI shutdown: signal before signal.Notify, untrapped signals, second signal, the timers, slow / blocking
-           # sink (back-pressure), instances parked in a blocking Report: _fast = 2x2 with an instantaneous sink,
-           # _slow_small = 2x1 with two-step writes
-           ("ShutdownMC", "Shutdown_exh_fast.cfg"), ("ShutdownMC", "Shutdown_exh_slow_small.cfg"),
-           ("ShutdownMC", "Shutdown_exh_drop_slow_small.cfg"),
-           # engine await loop composed with the aggregator (PoolAgg.tla)
-           ("PoolAggMC", "PoolAgg_exh_nofault.cfg"), ("PoolAggMC", "PoolAgg_exh_schedend.cfg"),
-           ("PoolAggMC", "PoolAgg_exh_small.cfg"),
-           # result destinations (Sink.tla): own files as coded; what a repair of the shared file must establish
-           ("SinkMC", "Sink_exh.cfg"), ("SinkMC", "Sink_repair.cfg"),
-           ("AggregatorMC", "Aggregator_exh_discard.cfg"),
-           # a sink that fails (write error, partial write, short count, close error): the run FAILS, nothing is lost
-           # silently - phout as fixed (the periodic flush ignores the error, the writer keeps it), encoder aggregators
-           ("AggregatorMC", "Aggregator_exh_fault_block.cfg"), ("AggregatorMC", "Aggregator_exh_fault_drop.cfg"),
-           ("AggregatorMC", "Aggregator_exh_fault_drop_q2.cfg")]
-    if thorough:
-        pos += [("AggregatorMC", "Aggregator_exh_big.cfg"), ("ShutdownMC", "Shutdown_exh.cfg"), ("ShutdownMC", "Shutdown_exh_drop.cfg"),
-                ("ShutdownMC", "Shutdown_exh_drop_fast.cfg"), ("ShutdownMC", "Shutdown_exh_q2.cfg"),
-                ("ShutdownMC", "Shutdown_exh_big.cfg"),
-                # once told to stop the process ends: thanks to the timers also with a sink that blocks for ever or an
-                # instance parked for ever in phout's Report; jsonlines on a working sink needs no timer
-                ("ShutdownMC", "Shutdown_live.cfg"), ("ShutdownMC", "Shutdown_live_drop.cfg"),
-                ("ShutdownMC", "Shutdown_live_drop_fastsink_notimeout.cfg"),
-                ("PoolAggMC", "PoolAgg_exh.cfg"), ("PoolAggMC", "PoolAgg_exh_block.cfg"),
-                ("PoolAggMC", "PoolAgg_exh_small2.cfg"), ("PoolAggMC", "PoolAgg_live_nofault.cfg"),
-                ("PoolAggMC", "PoolAgg_live.cfg"), ("PoolAggMC", "PoolAgg_exh_big.cfg")]
-    neg = [("AggregatorMC", "Aggregator_neg_nodrain.cfg"), ("AggregatorMC", "Aggregator_neg_noflush.cfg"),
-           ("AggregatorMC", "Aggregator_neg_nocount.cfg"), ("AggregatorMC", "Aggregator_neg_late.cfg"),
-           # the code as found: phout dropped the error of its final flush / of Close, jsonEncoder.Flush bufio's error
-           ("AggregatorMC", "Aggregator_neg_swallow_final.cfg"), ("AggregatorMC", "Aggregator_neg_swallow_close.cfg"),
-           ("AggregatorMC", "Aggregator_neg_swallow_tick.cfg"),
-           ("ShutdownMC", "Shutdown_neg_nowait.cfg"), ("ShutdownMC", "Shutdown_neg_reach.cfg"),
-           # a first signal while the tasks of a FAILED run are awaited ends the process (seed C06-6)
-           ("ShutdownMC", "Shutdown_neg_errsig.cfg"),
-           # every exempt cause of a forced exit really loses data (the list in ExitComplete is minimal) ...
-           ("ShutdownMC", "Shutdown_neg_early.cfg"), ("ShutdownMC", "Shutdown_neg_untrapped.cfg"),
-           ("ShutdownMC", "Shutdown_neg_second.cfg"), ("ShutdownMC", "Shutdown_neg_timeout.cfg"),
-           # ... an unforced complete exit of a run whose instance was parked by back-pressure at the signal is reachable
-           ("ShutdownMC", "Shutdown_neg_bpreach.cfg"),
-           # without the timers a stopped process may never end (instance parked for ever in a blocking Report)
-           ("ShutdownMC", "Shutdown_neg_live_notimeout.cfg"),
-           ("PoolAggMC", "PoolAgg_neg_early.cfg"),
-           # out of ammo during the start-up calls runCancel() instead of instanceStartCancel() (seed C06-8)
-           ("PoolAggMC", "PoolAgg_neg_ooa.cfg"), ("PoolAggMC", "PoolAgg_neg_ooa_start.cfg"),
-           ("SinkMC", "Sink_neg_samefile.cfg"), ("SinkMC", "Sink_neg_append_midline.cfg"), ("SinkMC", "Sink_neg_latetrunc.cfg")]
-    if thorough:
-        neg += [("ShutdownMC", "Shutdown_neg_live_notimeout_slow.cfg"), ("PoolAggMC", "PoolAgg_neg_reach.cfg"), ("PoolAggMC", "PoolAgg_neg_early_complete.cfg"),
-                ("PoolAggMC", "PoolAgg_neg_ooa_complete.cfg")]
+    pos = [(m, c) for m, c, q in POS if q or thorough]
+    neg = [(m, c) for m, c, q in NEG if q or thorough]
     vlib.spec_copy()
 
     def one(mc):
@@ -154,8 +167,10 @@ def design(thorough):
 
     states = trans = 0
     per = {}
-    with concurrent.futures.ThreadPoolExecutor(max_workers=4) as ex:
-        for (mod, cfg), r in ex.map(one, pos + neg):
+    # the long ones first
+    order = sorted(pos + neg, key=lambda mc: (0 if mc[1].startswith(("Shutdown_exh", "PoolAgg_exh", "Shutdown_live", "PoolAgg_live")) else 1))
+    with concurrent.futures.ThreadPoolExecutor(max_workers=6) as ex:
+        for (mod, cfg), r in ex.map(one, order):
             if (mod, cfg) in pos:
                 vlib.tlc_must_pass(r, cfg)
                 states += r.distinct
@@ -357,46 +372,57 @@ def machinery_events(rows, what):
 def run(tier, v):
     thorough = tier == "thorough"
     d = vlib.scratch()
-    with concurrent.futures.ThreadPoolExecutor(max_workers=2) as ex:
+    sig_path = os.path.join(d, "aggsig.ndjson")
+    agg_path = os.path.join(d, "agg.ndjson")
+    nsig = 500 if thorough else 16
+    nruns, neng, ncan, nstress, nprov, nother, nstaged, nfault = (5000, 300, 1500, 40, 700, 400, 400, 1200) if thorough else (300, 24, 40, 4, 24, 30, 20, 80)
+
+    # everything that does not depend on something else runs at the same time: the design-level TLC runs, the
+    # process-level driver (mostly waiting), the in-process driver + its two trace validations, the format cases,
+    # the result-destination runs
+    def in_process(vdrive):
+        vlib.run_driver(vdrive, ["agg", "-out", agg_path, "-runs", str(nruns), "-engine", str(neng), "-cancel", str(ncan),
+                                 "-dropstress", str(nstress), "-provfail", str(nprov), "-other", str(nother), "-staged", str(nstaged),
+                                 "-fault", str(nfault)], timeout=3000)
+        rows = vlib.read_ndjson(agg_path)
+        # real engine runs (hooks of the await loop merged with report / line events) answer to PoolAgg's trace
+        # specification, which re-uses every action of TraceAggregator; direct runs to TraceAggregator itself
+        eng_runs = {r["run"] for r in rows if r["ev"] == "Run" and r["mode"] in ENGINE_MODES}
+        with concurrent.futures.ThreadPoolExecutor(max_workers=2) as ex2:
+            f1 = ex2.submit(validate, v, "TraceAggregator", [r for r in rows if r["run"] not in eng_runs], d, describe_agg, "agg")
+            f2 = ex2.submit(validate, v, "TracePoolAgg", [r for r in rows if r["run"] in eng_runs], d, describe_agg, "poolagg")
+            a1, a2 = f1.result(), f2.result()
+        return rows, a1, a2
+
+    def process_level(vdrive, vpandora):
+        vlib.run_driver(vdrive, ["aggsig", "-vpandora", vpandora, "-out", sig_path, "-runs", str(nsig),
+                                 "-par", "6" if thorough else "4", "-fail", "80" if thorough else "4",
+                                 "-scen", "144" if thorough else "12", "-long", "1" if thorough else "0"], 3000)
+        srows = vlib.read_ndjson(sig_path)
+        machinery_events(srows, "aggsig")
+        return srows, validate(v, "TraceShutdown", srows, d, describe_sig, "signal")
+
+    vlib.spec_copy()
+    with concurrent.futures.ThreadPoolExecutor(max_workers=6) as ex:
         fb = ex.submit(build)
         fd = ex.submit(design, thorough)
         vdrive, vpandora = fb.result()
-        # process level runs concurrently with the design-level TLC runs (it is mostly waiting)
-        sig_path = os.path.join(d, "aggsig.ndjson")
-        nsig = 500 if thorough else 16
-        fs = ex.submit(vlib.run_driver, vdrive, ["aggsig", "-vpandora", vpandora, "-out", sig_path, "-runs", str(nsig),
-                                                  "-par", "6" if thorough else "4", "-fail", "80" if thorough else "4",
-                                                  "-scen", "144" if thorough else "12", "-long", "1" if thorough else "0"], 3000)
+        fs = ex.submit(process_level, vdrive, vpandora)
+        fa = ex.submit(in_process, vdrive)
+        fc = ex.submit(format_cases, v, vdrive, d)
+        fk = ex.submit(sink_runs, v, vdrive, d, 60 if thorough else 9)
+        rows, (agg_validated, agg_states), (pa_validated, pa_states) = fa.result()
+        ncases, cstates, ctrans, csamples = fc.result()
+        sink_cov = fk.result()
+        srows, (sig_validated, sig_states) = fs.result()
         states, trans, per = fd.result()
-        fs.result()
-    ncases, cstates, ctrans, csamples = format_cases(v, vdrive, d)
-    # M1 in-process
-    agg_path = os.path.join(d, "agg.ndjson")
-    nruns, neng, ncan, nstress, nprov, nother, nstaged, nfault = (5000, 300, 1500, 40, 700, 400, 400, 1200) if thorough else (300, 24, 40, 4, 24, 30, 20, 80)
-    vlib.run_driver(vdrive, ["agg", "-out", agg_path, "-runs", str(nruns), "-engine", str(neng), "-cancel", str(ncan),
-                             "-dropstress", str(nstress), "-provfail", str(nprov), "-other", str(nother), "-staged", str(nstaged),
-                             "-fault", str(nfault)], timeout=3000)
-    rows = vlib.read_ndjson(agg_path)
-    # real engine runs (hooks of the await loop merged with report / line events) answer to PoolAgg's trace
-    # specification, which re-uses every action of TraceAggregator; direct runs to TraceAggregator itself
-    eng_runs = {r["run"] for r in rows if r["ev"] == "Run" and r["mode"] in ENGINE_MODES}
-    with concurrent.futures.ThreadPoolExecutor(max_workers=2) as ex:
-        f1 = ex.submit(validate, v, "TraceAggregator", [r for r in rows if r["run"] not in eng_runs], d, describe_agg, "agg")
-        f2 = ex.submit(validate, v, "TracePoolAgg", [r for r in rows if r["run"] in eng_runs], d, describe_agg, "poolagg")
-        agg_validated, agg_states = f1.result()
-        pa_validated, pa_states = f2.result()
     agg_validated += pa_validated
     agg_states += pa_states
     nhooks = sum(1 for r in rows if r["ev"] == "Hook")
-    sink_cov = sink_runs(v, vdrive, d, 60 if thorough else 9)
     nrep = sum(1 for r in rows if r["ev"] == "Report") + sum(r["n"] for r in rows if r["ev"] == "Reports")
     nlines = sum(1 for r in rows if r["ev"] in ("Line", "JLine", "LogLine"))
     ndrop = sum(r["dropped"] for r in rows if r["ev"] == "RunEnd")
     droprun = sum(1 for r in rows if r["ev"] == "RunEnd" and r["dropped"] > 0)
-    # process level
-    srows = vlib.read_ndjson(sig_path)
-    machinery_events(srows, "aggsig")
-    sig_validated, sig_states = validate(v, "TraceShutdown", srows, d, describe_sig, "signal")
     exits = [r for r in srows if r["ev"] == "Exit"]
     sigs = {r["run"]: r for r in srows if r["ev"] == "Signal"}
     starts = {r["run"]: r for r in srows if r["ev"] == "Start"}
